@@ -497,26 +497,60 @@ Arguments stack_side {Sigma} _ _.
 Arguments transp_cond {Sigma} _ _ _ _ _.
 
 (* ---- count_calls: every call is counted once, whatever the callee does ------------------------------------- *)
+Lemma cnt_get_set_same : forall id z l, cnt_get id (cnt_set id z l) = z.
+Proof.
+  induction l as [|[i z'] l IH]; cbn; [now rewrite Nat.eqb_refl|].
+  destruct (Nat.eqb i id) eqn:E; cbn; rewrite E; [reflexivity|exact IH].
+Qed.
+
+Lemma cnt_get_set_other : forall id id' z l, id <> id' -> cnt_get id' (cnt_set id z l) = cnt_get id' l.
+Proof.
+  intros id id' z l H. induction l as [|[i z'] l IH]; cbn.
+  - destruct (Nat.eqb id id') eqn:E; [apply Nat.eqb_eq in E; contradiction|reflexivity].
+  - destruct (Nat.eqb i id) eqn:E; cbn.
+    + apply Nat.eqb_eq in E. subst i. destruct (Nat.eqb id id') eqn:E2; [apply Nat.eqb_eq in E2; contradiction|reflexivity].
+    + destruct (Nat.eqb i id'); [reflexivity|exact IH].
+Qed.
+
 Section Counter.
   Variable Sigma : Type.
   Variable cx : ctx Sigma.
-  (* the callee does not touch this wrapper's counter (it is an attribute of the wrapper object) *)
-  Hypothesis Hcall : forall c a k s, ws_cnt (ws (snd (c_call (cx_callee cx c) a k s))) = ws_cnt (ws s).
-  Hypothesis Hres : forall c a k s, ws_cnt (ws (snd (c_resume (cx_callee cx c) a k s))) = ws_cnt (ws s).
+  Let me := cx_self cx.
+  (* the callee does not write THIS wrapper's counter (num_calls is an attribute of the wrapper object; an inner
+     count_calls wrapper has its own) *)
+  Hypothesis Hcall : forall c a k s, cnt_get me (ws_cnt (ws (snd (c_call (cx_callee cx c) a k s)))) = cnt_get me (ws_cnt (ws s)).
+  Hypothesis Hres : forall c a k s, cnt_get me (ws_cnt (ws (snd (c_resume (cx_callee cx c) a k s)))) = cnt_get me (ws_cnt (ws s)).
 
   Lemma count_one_call : forall a k s,
-    ws_cnt (ws (snd (use_wrapped d_count_calls cx a k s))) = (ws_cnt (ws s) + 1)%Z.
+    cnt_get me (ws_cnt (ws (snd (use_wrapped d_count_calls cx a k s)))) = (cnt_get me (ws_cnt (ws s)) + 1)%Z.
   Proof.
     intros a k [c0 w0]. unfold use_wrapped, use_callee, as_callee. wnorm. unfold do_call.
     match goal with |- context [c_call (cx_callee cx CFunc) ?a ?k ?s] =>
       pose proof (Hcall CFunc a k s) as H1; destruct (c_call (cx_callee cx CFunc) a k s) as [r [c1 w1]] end.
-    cbn in H1. destruct (c_mode (cx_callee cx CFunc)); destruct r; wnorm; try exact H1.
+    cbn in H1. fold me in H1. rewrite cnt_get_set_same in H1.
+    destruct (c_mode (cx_callee cx CFunc)); destruct r; wnorm; try exact H1.
     destruct (tok_args v) as [[a' k']|]; wnorm; try exact H1.
     rewrite Hres. exact H1.
   Qed.
 
+  (* ... and it writes nobody else's *)
+  Lemma count_other_untouched : forall id a k s, id <> me ->
+    (forall c a k s, cnt_get id (ws_cnt (ws (snd (c_call (cx_callee cx c) a k s)))) = cnt_get id (ws_cnt (ws s))) ->
+    (forall c a k s, cnt_get id (ws_cnt (ws (snd (c_resume (cx_callee cx c) a k s)))) = cnt_get id (ws_cnt (ws s))) ->
+    cnt_get id (ws_cnt (ws (snd (use_wrapped d_count_calls cx a k s)))) = cnt_get id (ws_cnt (ws s)).
+  Proof.
+    intros id a k [c0 w0] Hne Hc Hr. unfold use_wrapped, use_callee, as_callee. wnorm. unfold do_call.
+    match goal with |- context [c_call (cx_callee cx CFunc) ?a ?k ?s] =>
+      pose proof (Hc CFunc a k s) as H1; destruct (c_call (cx_callee cx CFunc) a k s) as [r [c1 w1]] end.
+    cbn in H1. fold me in H1. rewrite cnt_get_set_other in H1 by (intro E; apply Hne; now rewrite E).
+    destruct (c_mode (cx_callee cx CFunc)); destruct r; wnorm; try exact H1.
+    destruct (tok_args v) as [[a' k']|]; wnorm; try exact H1.
+    rewrite Hr. exact H1.
+  Qed.
+
   Lemma count_history : forall calls s,
-    ws_cnt (ws (run_calls (use_wrapped d_count_calls cx) calls s)) = (ws_cnt (ws s) + Z.of_nat (List.length calls))%Z.
+    cnt_get me (ws_cnt (ws (run_calls (use_wrapped d_count_calls cx) calls s)))
+    = (cnt_get me (ws_cnt (ws s)) + Z.of_nat (List.length calls))%Z.
   Proof.
     induction calls as [|[a k] calls IH]; intros s.
     - cbn. lia.
